@@ -171,6 +171,12 @@ def book_absorb(repo: Repo) -> List[Ob]:
     for n in walk_no_nested(fi.node):
         if isinstance(n, ast.Assign) and isinstance(n.value, ast.Call) and call_np(n.value) == "kron" and len(n.value.args) == 2:
             blk_src = src(n.value.args[1])
+            if isinstance(n.value.args[1], ast.Name):
+                # `block = product_state.state` … kron(acc, block): the block is read through the local that names it
+                for a_ in walk_no_nested(fi.node):
+                    if isinstance(a_, ast.Assign) and len(a_.targets) == 1 and src(a_.targets[0]) == blk_src and src(a_.value).endswith(".state"):
+                        blk_src = src(a_.value)
+                        break
             owner = blk_src.rsplit(".state", 1)[0]
             from .measure import _enclosing_block, _enclosing_stmt
             blk = _enclosing_block(fi.node, n)
